@@ -262,6 +262,9 @@ func runC01(c *an.Ctx) {
 	// response record is fully re-initialised (shared with C07-R1 / C04-R10)
 	c.Floor("C01-R20", 10)
 	c.Borrow("C01-R20", runC06, func(o an.Obligation) bool { return o.Rule == "C06-R1" })
+	c.Borrow("C01-R20", runC17, func(o an.Obligation) bool {
+		return o.Rule == "C17-R4" && (strings.Contains(o.Key, ").Exchange") || strings.Contains(o.Key, "readValidMsg") || strings.Contains(o.Key, "validatePlainResponse"))
+	})
 	c04ClonerPools(c, "C01-R20")
 	// ---- R18: the bytes of a received datagram stay the session's own until the response was written (shared with C06-R2)
 	c.Floor("C01-R18", 2)
